@@ -669,7 +669,7 @@ impl Iterator for ManifestIterator {
                 }
             };
             if !line.is_ascii() {
-                return Some(Err(corruption(format!("line {idx} is not ascii"))));
+                return self.poison(corruption(format!("line {idx} is not ascii")));
             }
             if line == TX_SEPARATOR {
                 return Some(Ok(edit));
